@@ -4,6 +4,7 @@ import (
 	"fmt"
 	"math/big"
 	"sort"
+	"strings"
 
 	modeltypes "github.com/SaoNetwork/sao/x/model/types"
 	ordertypes "github.com/SaoNetwork/sao/x/order/types"
@@ -814,6 +815,10 @@ func (g *Gen) tx() Op {
 			case 4:
 				op.CommitId = nc + "|" + nc
 			}
+		} else if len(m.Commits) >= 2 && r.Chance(35) {
+			// a writer that still holds an older version: stale (but complete) base, regular update or force-push
+			old := strings.Split(m.Commits[r.Intn(len(m.Commits)-1)], "\032")[0]
+			op.CommitId = old + "|" + nc
 		}
 		return op
 	case choice < 84: // permission
@@ -946,6 +951,10 @@ func (g *Gen) lifecycleTx() Op {
 			Timeout: int32(20 + r.Intn(200)), Alias: m.Alias, DataId: m.DataId, CommitId: m.Commit + "|" + nc, Size: uint64(1 + r.Intn(100000)), Operation: uint32(1 + r.Intn(2))}
 		if r.Chance(12) {
 			uop.PayDid, uop.Creator = 11+1, 11
+		}
+		if len(m.Commits) >= 2 && r.Chance(25) {
+			old := strings.Split(m.Commits[r.Intn(len(m.Commits)-1)], "\032")[0]
+			uop.CommitId = old + "|" + nc
 		}
 		return uop
 	case c < 80:
